@@ -64,6 +64,8 @@ struct Scenario {
     script: usize,
     budget: usize,
     inject: Inject,
+    /// endpoint drops are scheduling points of their own (validation of the default granularity)
+    drop_points: bool,
 }
 
 impl Scenario {
@@ -156,7 +158,9 @@ struct Observed {
 }
 
 fn run_once(scn: &Arc<Scenario>, prefix: &[usize]) -> ExecResult<Observed> {
-    let session = Arc::new(Session::new(Some(scn.workers), None, true));
+    let mut sess = Session::new(Some(scn.workers), None, true);
+    sess.drop_points = scn.drop_points;
+    let session = Arc::new(sess);
     let scn2 = scn.clone();
     run_controlled(session, prefix, 4000, move || {
         let (tx, rx) = channel::<Report>();
@@ -313,17 +317,11 @@ fn judge(scn: &Scenario, res: &ExecResult<Observed>) -> Result<Judged, String> {
         return Err(format!("run() returned while threads {:?} were still alive (workers not joined)", res.unfinished_at_return));
     }
     // reconstruct the arrival order from the scheduler's log
-    let mut result_chans: Vec<usize> = Vec::new();
-    let mut first = true;
-    for e in &res.log {
-        if let Event::ChanCreate { chan, cap: None, tid: 0 } = e {
-            if first {
-                first = false; // the reporter channel
-            } else {
-                result_chans.push(*chan);
-            }
-        }
-    }
+    // result channels = channels on which threads other than the body send, in creation order
+    // (the reporter and the termination channels only ever carry sends of the body thread); no
+    // assumption is made about their kind (bounded or not)
+    let worker_sent: HashSet<usize> = res.log.iter().filter_map(|e| if let Event::Send { chan, tid, .. } = e { if *tid != 0 { Some(*chan) } else { None } } else { None }).collect();
+    let result_chans: Vec<usize> = res.log.iter().filter_map(|e| if let Event::ChanCreate { chan, .. } = e { if worker_sent.contains(chan) { Some(*chan) } else { None } } else { None }).collect();
     let spawned: Vec<usize> = res.log.iter().filter_map(|e| if let Event::Spawn { child, .. } = e { Some(*child) } else { None }).collect();
     let mut sent: std::collections::HashMap<usize, usize> = std::collections::HashMap::new();
     let mut arrival: Vec<(usize, usize, usize)> = Vec::new();
@@ -540,6 +538,7 @@ fn scenarios(thorough: bool) -> Vec<(Scenario, Vec<usize>)> {
             script,
             budget: 0,
             inject,
+            drop_points: false,
         };
         // frame budget: enough frames for any single worker to supply the required errors on
         // its own (so the collector can always finish), plus the requested slack
@@ -596,12 +595,36 @@ fn scenarios(thorough: bool) -> Vec<(Scenario, Vec<usize>)> {
         }
     }
     add(3, 1, 0, true, 2, 0, Inject::None, if thorough { vec![2] } else { vec![1] }, 0);
+    // the same scenarios with endpoint drops as scheduling points of their own: outcomes must be
+    // judged correct there too (validates the default granularity, see DESIGN.md 10.3)
+    let dp: Vec<(Scenario, Vec<usize>)> = v
+        .iter()
+        .filter(|(s, _)| s.workers == 2 && s.rounds == 1 && s.script == 0 && s.interval_zero)
+        .map(|(s, _)| (Scenario { id: format!("{}-dp", s.id), drop_points: true, ..s.clone() }, vec![if thorough { 3 } else { 2 }]))
+        .collect();
+    v.extend(dp);
+    let mut add = |workers: usize, errors: u64, bch: u64, iz: bool, rounds: usize, script: usize, inject: Inject, bounds: Vec<usize>, dp: bool| {
+        let s = Scenario {
+            id: format!("W{}-E{}-bch{}-{}-R{}-S{}-{:?}{}", workers, errors, bch, if iz { "int0" } else { "int1h" }, rounds, script, inject, if dp { "-dp" } else { "" }),
+            workers,
+            errors,
+            bch,
+            interval_zero: iz,
+            rounds,
+            script,
+            budget: errors as usize + 1,
+            inject,
+            drop_points: dp,
+        };
+        v.push((s, bounds));
+    };
     for inj in [Inject::StageErr, Inject::InterleaverPanic, Inject::Psk8Panic, Inject::DecoderPanic] {
         for w in 1..=3 {
+            add(w, 2, 0, true, 1, 0, inj, vec![2], true);
             let deep = if thorough { 4 } else { 3 };
-            add(w, 2, 0, true, 1, 0, inj, vec![if w == 3 { deep - 1 } else { deep }], 0);
+            add(w, 2, 0, true, 1, 0, inj, vec![if w == 3 { deep - 1 } else { deep }], false);
             if w <= 2 {
-                add(w, 1, 1, false, 2, 1, inj, vec![if thorough { 3 } else { 2 }], 0);
+                add(w, 1, 1, false, 2, 1, inj, vec![if thorough { 3 } else { 2 }], false);
             }
         }
     }
